@@ -166,7 +166,9 @@ def get_cauchy_point(
     # sort {t;,i = 1,. ..,n} in increasing order to obtain the ordered
     # set {tj :tj <= tj+1 ,j = 1, ...,n}.
     # Keep only the indices where t > 0
-    sorted_t_idx: NDArrayInt = np.argsort(t)[t > 0]
+    # (the mask must follow the sorted order, not the original one)
+    sorted_t_idx: NDArrayInt = np.argsort(t)
+    sorted_t_idx = sorted_t_idx[t[sorted_t_idx] > 0]
 
     # Initialization
     p = mats.W.T @ d  # 2mn operations
